@@ -18,6 +18,7 @@ from pathlib import Path
 from collections import OrderedDict  # TODO: replace by dict
 
 from resolva import Resolver
+from resolva.utils import ResolvaException
 
 from spil.util.caching import lru_kw_cache as cache
 from spil.util.log import debug
@@ -56,14 +57,21 @@ def path_to_dict(
     pc = get_path_config(config)
     r = Resolver.get(pc.name)
 
-    if _type:
-        data = r.resolve_one(path, _type)
-        template = _type
-    else:
-        template, data = r.resolve_first(path)
-
-    if not data:
+    try:
+        if _type:
+            data = r.resolve_one(path, _type)
+            template = _type
+        else:
+            template, data = r.resolve_first(path)
+    except ResolvaException as e:  # a repeated field carries two different values: not a conform path
+        debug(f"Path is not conform: {path} ({e})")
         return None, None
+
+    # the path must be exactly the rendering of the resolved fields (the template regex is more permissive)
+    if not data or r.get_format_for(template).format(**data) != path:
+        return None, None
+
+    data = data.copy()  # the resolver caches and shares its result
 
     # path mapping
     for key, value in data.items():
